@@ -49,7 +49,7 @@ func (res SearchRes) Size() uint {
 
 // Pack assembles the Search Response structure in the given buffer.
 func (res *SearchRes) Pack(buffer []byte) {
-	util.PackSome(buffer, res.Control, res.DescriptionB.DeviceHardware, res.DescriptionB.SupportedServices)
+	util.PackSome(buffer, &res.Control, &res.DescriptionB.DeviceHardware, &res.DescriptionB.SupportedServices)
 }
 
 // Unpack parses the given service payload in order to initialize the Search Response structure.
